@@ -19,6 +19,18 @@ PER_FILE_FIELDS = ['minus_file', 'plus_file', 'minus_file_event', 'plus_file_eve
                    'handled_diff_header_header_line_file_pair', 'diff_line', 'state']
 
 
+def _must_assign(F, fn, fld, depth):
+    """does local function fn (a method of the state machine) assign field fld on every path from entry to return?"""
+    if not fn or fn not in F.fn_bodies or depth > 2:
+        return False
+    mir = F.bodies[fn]['mir']
+    if not (mir['arg_count'] >= 1 and 'StateMachine' in mir['locals'][1]):
+        return False
+    wbs = [w[0] for w in Ru.field_writes(F, fn, SM, fld) if any(f == fld for _, f in w[1])]
+    wbs += [i for i, c in F.calls(fn) if callee_of(c) != fn and _must_assign(F, callee_of(c) if callee_of(c) in F.fn_bodies else (c.get('resolved') or ''), fld, depth + 1)]
+    return bool(wbs) and not Ru.must_pass(F, fn, 0, set(wbs))
+
+
 def reset_rule(F, res, resetters, prefix, fields):
     # ---- RESET
     n = ok = 0
@@ -26,6 +38,8 @@ def reset_rule(F, res, resetters, prefix, fields):
         for fld in fields:
             n += 1
             wbs = [w[0] for w in Ru.field_writes(F, p, SM, fld) if any(f == fld for _, f in w[1])]
+            # a call to a local method that assigns the field on every one of its paths is a write of the field (setter helpers)
+            wbs += [i for i, c in F.calls(p) if _must_assign(F, callee_of(c) if callee_of(c) in F.fn_bodies else (c.get('resolved') or ''), fld, 0)]
             S = F.cfg(p)
             from ..facts import reach
             before = rbb in reach(S, 0, avoid=set(wbs) - {rbb}) if rbb not in wbs else False
